@@ -53,6 +53,8 @@ fn main() {
         "threads" => threads_cli::cli_threads(&args[2..]),
         "lockstep" => threads_cli::cli_lockstep(&args[2..]),
         "cli" => cli_cli::cli(&args[2..]),
+        "images" => threads_cli::cli_images(&args[2..]),
+        "image-of" => threads_cli::cli_image_of(&args[2..]),
         "replay" => {
             let path = args.get(2).unwrap_or_else(|| harness_error("replay: missing path"));
             let txt = std::fs::read_to_string(path)
